@@ -246,7 +246,7 @@ def mutate_line(rng, line):
     if k == 6:
         return line[:rng.randrange(len(line) + 1)]
     if k == 7:
-        return line + rng.choice([" (", " )", " 'a", ' "abc', " '\\q'", ' "\\q"', " ''", " 'ab'"])
+        return line + rng.choice([" (", " )", " 'a", ' "abc', " '\\q'", ' "\\q"', " ''", " 'ab'", ' "abc\\', " '\\", ' "\\', " '\\u00", ' "\\u12'])
     if k == 8:
         return line + "\r"
     if k == 9:
@@ -720,6 +720,10 @@ def stack_fuzz(rng):
     return "\n".join(L) + "\n"
 
 
+ABI_NAMES = ["zero", "ra", "sp", "gp", "tp", "t0", "t1", "t2", "s0", "s1", "a0", "a1", "a2", "a3", "a4", "a5", "a6", "a7",
+             "s2", "s3", "s4", "s5", "s6", "s7", "s8", "s9", "s10", "s11", "t3", "t4", "t5", "t6"]
+
+
 def handler_prog(rng):
     """programs that install an interrupt handler (utvec = CSR 5) in every spelling: csrrw / csrw / csrrwi, numeric or
     named CSR, any rd (including rd == rs1), address loaded directly or moved through another register or the stack"""
@@ -758,6 +762,11 @@ def handler_prog(rng):
         # the handler's label is the last thing of the program, or only data follows it: there is no handler code at all
         return "\n".join(L + rng.choice([[], [".data", "hv: .word 1"], [".data"], ["hx:"]])) + "\n"
     L += ["csrrw t0, uscratch, t0", "sw t1, 0(t0)", "addi t1, t1, 1", "lw t1, 0(t0)", "csrrw t0, uscratch, t0"][:rng.randrange(0, 6)]
+    if rng.random() < 0.5:
+        # registers reloaded right before the handler ends: `uret` hands every register back to the interrupted code, so none
+        # of these reloads is a dead value - whichever register it is (round 9: one register missing from the 'all writable' set)
+        for r in rng.sample([x for x in ABI_NAMES if x not in ("zero", "sp", "t0")], rng.randrange(1, 4)):
+            L.append("lw %s, %d(t0)" % (r, 4 * rng.randrange(0, 16)))
     L.append(rng.choice(["uret", "uret", "ret", "j %s" % h]))
     return "\n".join(L) + "\n"
 
@@ -1122,4 +1131,29 @@ def ecall_loop_prog(rng):
         L.append("mv t1, a0")
     L.append(rng.choice(["bnez %s, serve" % r, "bnez a0, serve", "beq a0, a1, serve", "bgtz a0, serve", "blt zero, a1, serve"]))
     L += ["li a7, 10", "ecall"]
+    return "\n".join(L) + "\n"
+
+
+def loophead_prog(rng):
+    """a conforming program whose leaf function BEGINS with a do-while loop: the loop label and the function label are on the
+    same instruction, the back edge is a conditional branch to the function's own entry, and one argument register is updated
+    after its last use of the iteration, to be read by the next one (round 9: branches to an entry label are modelled as calls
+    passing the arguments - without that the update looks dead)"""
+    regs = rng.sample(["a0", "a1", "a2", "a3", "a4", "a5"], 3)
+    cnt, acc, stride = regs
+    f = rng.choice(["fill", "sum", "walk"])
+    alias = rng.random() < 0.6
+    tgt = f + "_next" if alias else f
+    L = ["main:", "li %s, %d" % (cnt, rng.randrange(1, 6)), "li %s, %d" % (acc, rng.randrange(0, 9)), "li %s, %d" % (stride, rng.randrange(0, 64))]
+    L += ["jal %s" % f, rng.choice(["mv a0, a0", "addi a0, a0, 0", "add a0, a0, zero"]), "li a7, 1", "ecall", "li a7, 10", "ecall", "%s:" % f]
+    if alias:
+        L.append("%s:" % tgt)
+    body = ["add %s, %s, %s" % (acc, acc, stride), "addi %s, %s, -1" % (cnt, cnt), "addi %s, %s, %d" % (stride, stride, rng.choice([1, 4, 8]))]
+    if rng.random() < 0.5:
+        body[1], body[2] = body[2], body[1]
+    L += body
+    L.append(rng.choice(["bnez %s, %s" % (cnt, tgt), "bgtz %s, %s" % (cnt, tgt), "bne %s, zero, %s" % (cnt, tgt), "blt zero, %s, %s" % (cnt, tgt)]))
+    if acc != "a0":
+        L.append("mv a0, %s" % acc)
+    L.append("ret")
     return "\n".join(L) + "\n"
